@@ -6,6 +6,8 @@ SPECS = {}
 SPECS.update(pure.SPECS)
 from . import tier1, conc
 SPECS.update(tier1.SPECS)
+from . import race
+SPECS.update(race.SPECS)
 
 from . import common as C
 BUILDERS = [
